@@ -68,8 +68,10 @@ theorem transition_chain {x x' : Inst} {f t : Nat} (h : stepTrans x f t = .ok x'
     cases h; exact ⟨hf, ht.symm, Or.inl ht⟩
   · split at h
     · rename_i ht
-      split at h; · cases h
-      cases h; exact ⟨hf, ht.symm, Or.inr (Or.inl ht)⟩
+      split at h
+      · cases h; exact ⟨hf, ht.symm, Or.inr (Or.inl ht)⟩
+      · split at h; · cases h
+        cases h; exact ⟨hf, ht.symm, Or.inr (Or.inl ht)⟩
     · split at h
       · rename_i ht
         split at h; · cases h
